@@ -5,9 +5,10 @@
 # On success copies patch.diff, demo.diff, meta.json (+ what was run) to /verif/seeded/<PID>[_<N>]/.
 set -u
 PID=$1; N=${2:-}
-WT=/tmp/seed_$PID; OUT=/tmp/seed_${PID}_out
+R=${ROUND:-}            # ROUND=2: second-round seeds live in /tmp/seed2_<PID>, kept as seeded/<PID>_r2[_N]
+WT=/tmp/seed${R}_$PID; OUT=/tmp/seed${R}_${PID}_out
 V=$(cd "$(dirname "$0")/.." && pwd)
-DEST=$V/seeded/${PID}${N:+_$N}
+DEST=$V/seeded/${PID}${R:+_r$R}${N:+_$N}
 cd $WT || exit 2
 git reset -q --hard && git clean -fdq -e target -e .kverif_harness
 run() { CARGO_NET_OFFLINE=true cargo test --workspace --offline --no-fail-fast 2>&1; }
@@ -15,19 +16,19 @@ run() { CARGO_NET_OFFLINE=true cargo test --workspace --offline --no-fail-fast 2
 # "error: test failed" line is counted as one failure
 summ() { a=$(grep -c "^error: test failed" "$1"); grep -E "^test result" "$1" | awk -v a="$a" '{p+=$4; f+=$6} END {if (f==0 && a>0) f=a; print p" passed "f" failed"}'; }
 git apply "$OUT/demo$N.diff" || { echo "demo does not apply"; exit 2; }
-run > /tmp/seedv_${PID}${N}_a.log
-A=$(summ /tmp/seedv_${PID}${N}_a.log)
+run > /tmp/seedv${R}_${PID}${N}_a.log
+A=$(summ /tmp/seedv${R}_${PID}${N}_a.log)
 git apply "$OUT/patch$N.diff" || { echo "patch does not apply"; exit 2; }
-run > /tmp/seedv_${PID}${N}_b.log
-B=$(summ /tmp/seedv_${PID}${N}_b.log)
-FAILED=$(grep -E "^test [^ ]+ \.\.\. FAILED" /tmp/seedv_${PID}${N}_b.log | sed 's/^test \(.*\) \.\.\. FAILED/\1/' | tr '\n' ' ')
+run > /tmp/seedv${R}_${PID}${N}_b.log
+B=$(summ /tmp/seedv${R}_${PID}${N}_b.log)
+FAILED=$(grep -E "^test [^ ]+ \.\.\. FAILED" /tmp/seedv${R}_${PID}${N}_b.log | sed 's/^test \(.*\) \.\.\. FAILED/\1/' | tr '\n' ' ')
 echo "demo only: $A ; demo+patch: $B ; failing with patch: $FAILED"
 case "$A" in *" 0 failed") ;; *) echo "NOT CONFIRMED: demo fails without the patch"; exit 1;; esac
 case "$B" in *" 0 failed") echo "NOT CONFIRMED: demo does not fail with the patch"; exit 1;; esac
 # the only failures must be tests added by the demo
 git reset -q --hard; git clean -fdq -e target -e .kverif_harness; git apply "$OUT/patch$N.diff"
-run > /tmp/seedv_${PID}${N}_c.log
-C=$(summ /tmp/seedv_${PID}${N}_c.log)
+run > /tmp/seedv${R}_${PID}${N}_c.log
+C=$(summ /tmp/seedv${R}_${PID}${N}_c.log)
 echo "patch only (existing suite): $C"
 case "$C" in *" 0 failed") ;; *) echo "NOT CONFIRMED: existing suite fails with the patch"; exit 1;; esac
 mkdir -p "$DEST"
